@@ -32,6 +32,10 @@ pub enum Op {
     BranchLikeTag { which: usize },
     /// a lightweight tag `v0.<n>.0` at HEAD (repositories with hundreds of releases)
     TagNumbered { n: u32 },
+    /// a file in the work tree named exactly like an existing tag (or `HEAD`): a revision
+    /// argument of that name is ambiguous to git unless it is followed by `--` (F25).
+    /// untracked: the tree becomes dirty; tracked: a new commit that adds the file
+    FileLikeRef { which: usize, tracked: bool },
 }
 
 pub const BRANCHES: [&str; 10] = ["develop", "feature/x", "release/1", "fé/ü", "007", "hotfix/12/a", "release-2", "Feature/API-v2", "users/a+b@c", "1.2.3"];
@@ -401,6 +405,33 @@ impl Repo {
                 let h = self.model.commits[t.commit].hash.clone();
                 self.git(&["branch", &t.name, &h], None)?;
                 self.model.branches.push((t.name.clone(), t.commit));
+            }
+            Op::FileLikeRef { which, tracked } => {
+                let name = if self.model.tags.is_empty() || which % 4 == 3 {
+                    "HEAD".to_string()
+                } else {
+                    self.model.tags[which % self.model.tags.len()].name.clone()
+                };
+                if name.contains('/') || name.is_empty() {
+                    return Ok(());
+                }
+                if *tracked {
+                    self.clean_tree()?;
+                    let n = self.model.commits.len();
+                    std::fs::write(self.dir.join(&name), "ref\n").map_err(|e| e.to_string())?;
+                    std::fs::write(self.dir.join(format!("f{n}.txt")), format!("{n}\n")).map_err(|e| e.to_string())?;
+                    self.git(&["add", "--", &name, &format!("f{n}.txt")], None)?;
+                    let t = self.time(0);
+                    self.git(&["commit", "-q", "-m", &format!("c{n} adds a file named {name}")], Some(t))?;
+                    let h = self.git(&["rev-parse", "HEAD"], None)?;
+                    let parent = self.model.head_commit();
+                    self.model.commits.push(CommitM { parents: vec![parent], time: t, hash: h });
+                    self.advance_head(n);
+                } else if !self.dir.join(&name).exists() {
+                    std::fs::write(self.dir.join(&name), "ref\n").map_err(|e| e.to_string())?;
+                    self.model.untracked = true;
+                }
+                self.log.push(format!("a file named {name} ({})", if *tracked { "committed" } else { "untracked" }));
             }
             Op::EmptyDir => {
                 std::fs::create_dir_all(self.dir.join("emptydir").join("nested")).map_err(|e| e.to_string())?;
